@@ -32,8 +32,8 @@ def wsum_sub(sub, scale):
 
 
 def make_reduce(rec, mode="good"):
-    def wsum(x, axis, *, scale=1.0):
-        rec.append({"e": "call", "shapes": [[int(s) for s in x.shape]], "axis": [int(a) for a in (axis if isinstance(axis, (tuple, list)) else [axis])], "kw": ["scale"], "kwval": repr(scale)})
+    def wsum(x, axis, *, scale=1.0, bounds=(0, 0)):
+        rec.append({"e": "call", "shapes": [[int(s) for s in x.shape]], "axis": [int(a) for a in (axis if isinstance(axis, (tuple, list)) else [axis])], "kw": ["scale"], "kwval": repr(scale), "bounds": repr(bounds)})
         scale = NONE_MEANS if scale is None else scale
         ax = tuple(axis) if isinstance(axis, (tuple, list)) else (axis,)
         rest = [i for i in range(x.ndim) if i not in ax]
@@ -50,8 +50,8 @@ def make_reduce(rec, mode="good"):
 
 
 def make_elementwise(rec, mode="good"):
-    def lin(x, y, *, scale=1.0):
-        rec.append({"e": "call", "shapes": [[int(s) for s in np.shape(x)], [int(s) for s in np.shape(y)]], "axis": [], "kw": ["scale"], "kwval": repr(scale)})
+    def lin(x, y, *, scale=1.0, bounds=(0, 0)):
+        rec.append({"e": "call", "shapes": [[int(s) for s in np.shape(x)], [int(s) for s in np.shape(y)]], "axis": [], "kw": ["scale"], "kwval": repr(scale), "bounds": repr(bounds)})
         scale = NONE_MEANS if scale is None else scale
         r = (2.0 * x + 3.0 * y) * scale
         if mode == "wrongshape":
@@ -108,18 +108,30 @@ def run_item(it):
             if got.shape != exp.shape or not np.allclose(got, exp, rtol=1e-9):
                 findings.append({"kind": "adapted-result-differs", "detail": "%s call (scale=%s): result differs from the loop notation with the same function: got %s expected %s" % (
                     label, scale, got.reshape(-1)[:5].tolist(), exp.reshape(-1)[:5].tolist())})
-        # wrong outputs
-        for mode in (["wrongshape", "wrongtype", "tuple"] if adapter == "reduce" else ["wrongshape", "wrongtype"]):
-            rec2 = []
-            bad = adapt(make_reduce(rec2, mode) if adapter == "reduce" else make_elementwise(rec2, mode))
+        # sequence-valued options that compare equal but are not the same value: each call must hand over exactly its own
+        for bounds in ((0, 20), (0, 20.0), [0, 20], (0, 20)):
+            del rec[:]
             try:
-                r = bad(desc, *[x.copy() for x in ins], scale=1.0, **sizes)
+                op(desc, *[x.copy() for x in ins], scale=2.0, bounds=bounds, **sizes)
                 calls += 1
-                if mode == "wrongshape" and np.asarray(r).shape == tuple(case["outs"][0]["shape"]):
-                    continue     # (a shape that happens to be right after all)
-                findings.append({"kind": "bad-output-accepted", "detail": "user function returning %s produced a result %s" % (mode, type(r).__name__)})
-            except Exception:
+                if rec and rec[-1].get("bounds") != repr(bounds):
+                    findings.append({"kind": "keyword-not-forwarded-verbatim", "passed_type": type(bounds).__name__, "detail": "bounds=%r was passed, the function received bounds=%s" % (bounds, rec[-1].get("bounds"))})
+            except Exception as e:
                 calls += 1
+                findings.append({"kind": "adapted-call-fails", "detail": "call with bounds=%r raised %s" % (bounds, type(e).__name__)})
+        # wrong outputs: with a keyword option and without any (the traced graph is then a bare wrapper around the function)
+        for mode in (["wrongshape", "wrongtype", "tuple"] if adapter == "reduce" else ["wrongshape", "wrongtype"]):
+            for kwopt in ({"scale": 1.0}, {}):
+                rec2 = []
+                bad = adapt(make_reduce(rec2, mode) if adapter == "reduce" else make_elementwise(rec2, mode))
+                try:
+                    r = bad(desc, *[x.copy() for x in ins], **kwopt, **sizes)
+                    calls += 1
+                    if mode == "wrongshape" and np.asarray(r).shape == tuple(case["outs"][0]["shape"]):
+                        continue     # (a shape that happens to be right after all)
+                    findings.append({"kind": "bad-output-accepted", "detail": "user function returning %s produced a result %s (%s keyword option)" % (mode, type(r).__name__, "with a" if kwopt else "without")})
+                except Exception:
+                    calls += 1
         # a keyword-only parameter name used as an axis name
         names = [t for t in case["desc"] if t.isalpha()]
         if names:
@@ -194,7 +206,7 @@ def run(tier):
         for f in r["findings"]:
             if f["kind"] == "machinery":
                 raise common.MachineryError(f["detail"])
-            rep.violation({"kind": f["kind"], "fam": it["case"]["fam"], "fn_output_0d": all(l["br"] or l["len"] == 1 for t in it["case"]["ins"] for l in t["leaves"]), "features": DC.features(it["case"])}, {"item": it},
+            rep.violation({"kind": f["kind"], "passed_type": f.get("passed_type", "-"), "fam": it["case"]["fam"], "fn_output_0d": all(l["br"] or l["len"] == 1 for t in it["case"]["ins"] for l in t["leaves"]), "features": DC.features(it["case"])}, {"item": it},
                           "adapted %s %r lengths %s: %s" % (it["case"]["fam"], DC.desc_of(it["case"]), {k: v for k, v in it["case"]["L"].items() if k in set(it["case"]["desc"])}, f["detail"]))
     acc, rej = validate(rep, traces, "real")
     rep.validated += acc
